@@ -23,6 +23,15 @@ func runC02(r *Run) {
 			Spec{Name: "map-keys-T256-K3+lim", Kind: "map-small", T: 256, Keys: 3, Extra: map[string]int{"kLim": 1}, Classes: []string{"t", "s10", "A", "M:t", "s:M:t"}, Oracles: or},
 		)
 	}
+	nd := 4
+	if r.Thorough() {
+		nd = 5
+	}
+	specs = append(specs,
+		Spec{Name: "map-small-T1024-K4", Kind: "map-small", T: 1024, Keys: 4, Classes: []string{"t", "limM", "limM+", "M:t"}, Oracles: or},
+		Spec{Name: "map-small-T32768-K3", Kind: "map-small", T: 32768, Keys: 3, Classes: []string{"t", "limM", "limM+"}, Oracles: or},
+		Spec{Name: "map-nodedup-T256", Kind: "map-small", T: 256, Keys: 3, Classes: []string{"limM", "A:t"}, Oracles: or, Depth: nd, Extra: map[string]int{"nodedup": 1}},
+	)
 	r.ExploreSpecs(specs)
 	// multi-level trees with caller-placed digests: new smallest key, keys between any two
 	// adjacent slabs, removal of a slab's first key, above the last key
